@@ -37,7 +37,8 @@ impl AsyncRead for CountingStream {
     }
 }
 
-const MAX: u64 = MAX_JSON_MESSAGE_SIZE;
+// 1 MiB as stated by the property, deliberately NOT taken from the code's MAX_JSON_MESSAGE_SIZE
+const MAX: u64 = 1 << 20;
 
 fn len_of(tok: &str) -> u64 {
     match tok {
